@@ -247,6 +247,13 @@ Definition out_eqb (t : table) (i : impl_out) (m : res opened) : bool :=
   | _, _ => false
   end.
 
+(* the model's answer in the shape of an observation *)
+Definition impl_of (t : table) (r : res opened) : impl_out :=
+  match r with
+  | Ok o => IOk (o_md o) (o_sid o) (o_files o) (zsort (rows_of t (o_files o)))
+  | Err e => IErr (err_class e)
+  end.
+
 (* ------------------------------------------------------------------ *)
 (* Declarative spec on an arbitrary directory (order-free, existential): which snapshot is meant,
    which entries are live, when the reader must refuse. *)
